@@ -77,6 +77,10 @@ func (o Op) short() string {
 		return fmt.Sprintf("pput(st%d via h%d,%d,%d)", o.U, o.ID, o.K, o.V)
 	case "pget":
 		return fmt.Sprintf("pget(st%d via h%d,%d)", o.U, o.ID, o.K)
+	case "dsave":
+		return fmt.Sprintf("dsave(name%d,did%d)", o.ID, o.M)
+	case "dbyname":
+		return fmt.Sprintf("dbyname(name%d)", o.ID)
 	case "create":
 		return "create"
 	case "import":
